@@ -32,7 +32,7 @@ YOUR TASK: produce ONE change to the non-test source of the worktree (Go code an
 
 Then demonstrate it. Deliverables, all in {out}/ :
  - patch.diff : `git -C {wt} diff HEAD` (source changes only; must apply with `git apply` on the worktree's HEAD). Do not edit or add tests in the patch, and do not regenerate checked-in *_gen.go files in the patch.
- - demo/ : a self-contained Go module (own go.mod with `replace go.uber.org/cff => {wt}`, go.sum copied from the worktree) with a test or small program that FAILS (or prints the violation and exits non-zero) with your change and PASSES on the unchanged code (verify both, e.g. with `git stash` / `git stash pop` in the worktree). If the change is in the generator, the demo must contain the cff-tagged source plus a run.sh that builds cff from the worktree, regenerates the demo's code and runs the test. If the violation is schedule dependent, make the demo loop enough that it fails reliably with the change and never without it. Include a short README.md with the exact command.
+ - demo/ : a self-contained Go module (own go.mod with `replace go.uber.org/cff => {wt}`, go.sum copied from the worktree) with a test or small program that FAILS (or prints the violation and exits non-zero) with your change and PASSES on the unchanged code (verify both by reversing and re-applying your patch with `git apply -R patch.diff` / `git apply patch.diff` in the worktree; do NOT use `git stash`, the stash is shared with other worktrees of the same repository). If the change is in the generator, the demo must contain the cff-tagged source plus a run.sh that builds cff from the worktree, regenerates the demo's code and runs the test. If the violation is schedule dependent, make the demo loop enough that it fails reliably with the change and never without it. Include a short README.md with the exact command.
  - meta.json : {{"property": "{prop}", "summary": "<what was changed and why it breaks the property>", "needs": "<what exactly is needed for the violation to manifest, and which neighbouring cases still behave correctly>", "suite": "<commands you ran for the suite and their results>", "demo": "<command to run the demo; observed result with the change and without>"}}
 
 Leave the worktree with the patch applied (uncommitted). Finish with a brief report: the diff, what it needs, and the demo results with/without.""")
